@@ -332,7 +332,9 @@ func checkC20Nested(w *World, c *Check, kinds []nilKind) {
 		call func(ex *Exec, st *State, it *IfaceVal, ptr *PtrVal, structName string)
 	}
 	fnW := func(n string) walker {
-		return walker{n, func(ex *Exec, st *State, it *IfaceVal, ptr *PtrVal, sn string) { ex.Call(st, w.Func(n), []Value{it}, nil) }}
+		return walker{n, func(ex *Exec, st *State, it *IfaceVal, ptr *PtrVal, sn string) {
+			ex.Call(st, w.Func(n), []Value{it}, nil)
+		}}
 	}
 	methW := func(m string) walker {
 		return walker{"." + m, func(ex *Exec, st *State, it *IfaceVal, ptr *PtrVal, sn string) {
